@@ -438,10 +438,13 @@ class Session:
         self.depth = 0
         self.closed = False
         self.ctes = []             # stack of {name: (cols, rows)} of the WITH clauses being evaluated
+        self.rowlevel = {}         # id(from clause) -> {alias: (table, mode)}: tables of the current locking statement probed by primary key
+        self.lock_only = None      # aliases named by FOR UPDATE / SHARE OF ... of the locking read being evaluated (None: all tables)
         # isolation layer (used only while eng.cc is set)
         self.nested = 0            # > 0 inside a trigger or a stored function
         self.mode = "snapshot"     # "current" while a locking read or a DML statement is evaluated (they read the latest committed rows)
         self.held = []
+        self.gaps = []             # gap locks (table, key-prefix predicate): stop inserts of matching rows by other transactions
         self.snap = None
         self.read_view = False
         self.tx_stmts = 0
@@ -1128,7 +1131,7 @@ class Session:
                 cols, rows = self.ctes[-1][ref[1].lower()]
                 return rows, cols
             t = self.eng.table(ref[1])
-            if self.eng.cc is not None and self.mode == "snapshot":
+            if self.eng.cc is not None and (self.mode == "snapshot" or (self.lock_only is not None and ref[2].lower() not in self.lock_only)):
                 vis = self.eng.cc.visible_rows(self, t)
                 if vis is not None:
                     return vis, [c.name for c in t.cols]
@@ -1177,6 +1180,8 @@ class Session:
                     f2[alias] = NullRow({c: None for c in cols})
                     new.append(f2)
             frames = new
+        if self.eng.cc is not None and self.rowlevel and self.mode == "current":
+            self.eng.cc.on_joined(self, frm, frames)
         return frames
 
     def _sort_frames(self, frames, order, env):
@@ -1216,13 +1221,14 @@ class Session:
             cc._select_locks(self, sel, env, "X" if sel["lock"] == "update" else "S", out)
             cc.register(self)
             cc.acquire(self, out)
-            saved_mode = self.mode
+            saved_mode, saved_only = self.mode, self.lock_only
             self.mode = "current"
+            self.lock_only = set(sel["lock_of"]) if sel.get("lock_of") else None
             try:
                 cols, rows = self._run_select(sel, env, lazy, with_frames)
                 return cols, list(rows)
             finally:
-                self.mode = saved_mode
+                self.mode, self.lock_only = saved_mode, saved_only
         return self._run_select(sel, env, lazy, with_frames)
 
     def _run_select(self, sel, env, lazy=False, with_frames=False):
